@@ -33,6 +33,7 @@ def rules(ctx):
     C04.c045(ctx)
     c055(ctx)
     c056(ctx)
+    c057(ctx)
 
 
 def c055(ctx):
@@ -262,3 +263,46 @@ def c056(ctx):
         # every other path compares count with the configured number
         cmp_ok = any(s_["k"] == "bin" and s_["op"] == "Le" for s_ in P.origins(f, {"k": "copy", "pl": {"l": 0, "p": []}}))
         ctx.check(R, f, "count-vs-number", cmp_ok, "otherwise retained iff count <= number", "the retention test is no longer count <= number")
+
+
+# ------------------------------------------------------------------------------------------------
+# C05.7 the output files of a compaction are handed on in the order they were written
+
+def c057(ctx):
+    R = "C05.7"
+    ctx.declare(R, "the multi-builder returns its output files in creation order (= ascending key order: it is fed a sorted stream), because "
+                   "compaction_finish installs them into the level in the order returned and a level must stay sorted by key")
+    n = 0
+    bad = []
+    for f in sorted(ctx.prog.fns.values(), key=lambda f: f.key):
+        if f.crate != "sst" or "SstMultiBuilder" not in (f.impl_self or f.skey):
+            continue
+        for b, t in f.calls():
+            if not t["args"]:
+                continue
+            srcs = P.origins(f, t["args"][0])
+            if not any(s_["k"] == "field" and s_["f"] == "paths" and s_["owner"].endswith("SstMultiBuilder") for s_ in srcs):
+                continue
+            ck = callee_skey(t) or ""
+            # only mutators matter: &mut receivers of Vec / slice methods
+            if not re.search(r"^alloc::vec::Vec::|^alloc::slice::|^core::slice::", ck):
+                continue
+            ty = f.locals[t["args"][0]["pl"]["l"]] if t["args"][0].get("k") in ("copy", "move") else ""
+            if not ty.startswith("&mut") and "&mut" not in ty:
+                continue
+            n += 1
+            name = ck.rsplit("::", 1)[-1]
+            ok = name in ("push", "reserve", "deref_mut", "as_mut_slice", "len", "is_empty")
+            if not ok:
+                bad.append((f, P.term_pt(f, b.idx), name))
+    ctx.floor(R, "mutations of SstMultiBuilder.paths", n, 1)
+    for (f, pt, name) in bad:
+        ctx.violate(R, f, "paths-reordered", "SstMultiBuilder.paths is changed by `%s`, not only appended to: the outputs are named 0.sst, 1.sst, .., 10.sst and any "
+                    "re-ordering (a lexicographic sort puts 10 before 2) installs them out of key order -- lookups then skip files" % name, pt=pt)
+    if not bad:
+        ctx.ok(R, "sst::SstMultiBuilder", "paths is only ever appended to (%d mutation sites)" % n)
+    # and the consumer keeps that order: compaction_finish hands the paths, in order, to the version
+    g = ctx.fn(R, "lsmtk::tree::LsmTree::compaction_finish")
+    if g:
+        srt = [p_ for p_ in P.call_points(g, r"(alloc|core)::slice::(<impl \[T\]>::)?(sort\w*|reverse)$")]
+        ctx.check(R, g, "finish-keeps-order", not srt, "compaction_finish does not reorder the outputs", "compaction_finish reorders the outputs of the multi-builder")
